@@ -26,14 +26,24 @@ package main
 //     another goroutine: they become their own entries `<outer>$go<N>` and the
 //     outer function only records a `spawn`; every other function literal is
 //     treated as if it ran synchronously where it is written (conservative: the
-//     thread is then assumed to still hold whatever the definer holds).
+//     thread is then assumed to still hold whatever the definer holds);
+//   * every acquisition site records the CONDITION under which it is taken
+//     (`cond`): the source text of the conditions of the `if` statements that
+//     enclose it inside its function (function literals included), outermost
+//     first, whitespace collapsed; an `else` branch contributes `!(<cond>)`, a
+//     `case` clause `case <tag>: <exprs>` (`default` for the default clause);
+//     several enclosing conditions are joined as `(c1) && (c2)`; the empty
+//     string means the acquisition is unconditional. Early returns *before* an
+//     acquisition are not conditions in this sense (they end the request).
 //
 // Only functions from which an acquisition is reachable are emitted.
 
 import (
+	"bytes"
 	"fmt"
 	"go/ast"
 	"go/parser"
+	"go/printer"
 	"go/token"
 	"os"
 	"path/filepath"
@@ -66,6 +76,7 @@ type lkSite struct {
 	inLoop              bool
 	explicitRels        int
 	returnsBeforeRel    int
+	cond                string // enclosing if-conditions, normalised; "" = unconditional
 }
 
 type lkFn struct {
@@ -185,6 +196,34 @@ type lkWalker struct {
 	ccVars   map[string]bool // variables holding a cluster client
 	loop     int
 	nLit     int
+	conds    []string // conditions of the enclosing if / case statements, outermost first
+}
+
+// exprText is the source text of an expression with all whitespace runs
+// collapsed to one blank (so re-formatting does not change the fact).
+func (c *lkCtx) exprText(e ast.Expr) string {
+	var buf bytes.Buffer
+	if err := printer.Fprint(&buf, c.fset, e); err != nil {
+		return "?"
+	}
+	return strings.Join(strings.Fields(buf.String()), " ")
+}
+
+// condText renders the stack of enclosing conditions.
+func condText(conds []string) string {
+	switch len(conds) {
+	case 0:
+		return ""
+	case 1:
+		return conds[0]
+	}
+	return "(" + strings.Join(conds, ") && (") + ")"
+}
+
+func (w *lkWalker) under(cond string, f func()) {
+	w.conds = append(w.conds, cond)
+	f()
+	w.conds = w.conds[:len(w.conds)-1]
 }
 
 func (w *lkWalker) block(list []ast.Stmt) {
@@ -210,7 +249,8 @@ func (w *lkWalker) acquisition(at ast.Node, lhs []ast.Expr, mode string, key ast
 	}
 	cls := keyClass(key)
 	file, line := w.c.pos(at)
-	site := lkSite{fn: w.fn.key, cls: cls, mode: mode, file: file, line: line, rel: "none", inLoop: w.loop > 0}
+	site := lkSite{fn: w.fn.key, cls: cls, mode: mode, file: file, line: line, rel: "none", inLoop: w.loop > 0,
+		cond: condText(w.conds)}
 	want := "Unlock"
 	if mode == "R" {
 		want = "RUnlock"
@@ -324,8 +364,9 @@ func (w *lkWalker) stmt(s ast.Stmt, rest []ast.Stmt) {
 	case *ast.IfStmt:
 		w.stmt(x.Init, nil)
 		w.expr(x.Cond)
-		w.block(x.Body.List)
-		w.stmt(x.Else, nil)
+		ct := w.c.exprText(x.Cond)
+		w.under(ct, func() { w.block(x.Body.List) })
+		w.under("!("+ct+")", func() { w.stmt(x.Else, nil) })
 	case *ast.ForStmt:
 		w.stmt(x.Init, nil)
 		w.expr(x.Cond)
@@ -341,7 +382,24 @@ func (w *lkWalker) stmt(s ast.Stmt, rest []ast.Stmt) {
 	case *ast.SwitchStmt:
 		w.stmt(x.Init, nil)
 		w.expr(x.Tag)
-		w.block(x.Body.List)
+		tag := ""
+		if x.Tag != nil {
+			tag = " " + w.c.exprText(x.Tag)
+		}
+		for _, cc := range x.Body.List {
+			cl, ok := cc.(*ast.CaseClause)
+			if !ok {
+				continue
+			}
+			for _, e := range cl.List {
+				w.expr(e)
+			}
+			ct := "default"
+			if len(cl.List) > 0 {
+				ct = strings.Join(mapExpr(cl.List, w.c.exprText), ", ")
+			}
+			w.under("case"+tag+": "+ct, func() { w.block(cl.Body) })
+		}
 	case *ast.TypeSwitchStmt:
 		w.stmt(x.Init, nil)
 		w.stmt(x.Assign, nil)
@@ -349,13 +407,18 @@ func (w *lkWalker) stmt(s ast.Stmt, rest []ast.Stmt) {
 	case *ast.SelectStmt:
 		w.block(x.Body.List)
 	case *ast.CaseClause:
+		// clause of a type switch (expression switches are handled above)
 		for _, e := range x.List {
 			w.expr(e)
 		}
-		w.block(x.Body)
+		ct := "default"
+		if len(x.List) > 0 {
+			ct = strings.Join(mapExpr(x.List, w.c.exprText), ", ")
+		}
+		w.under("case type: "+ct, func() { w.block(x.Body) })
 	case *ast.CommClause:
 		w.stmt(x.Comm, nil)
-		w.block(x.Body)
+		w.under("select clause", func() { w.block(x.Body) })
 	case *ast.LabeledStmt:
 		w.stmt(x.Stmt, rest)
 	case *ast.ReturnStmt:
@@ -706,9 +769,9 @@ func genLocks(repo string) (string, error) {
 		if i == len(c.sites)-1 {
 			sep = ""
 		}
-		fmt.Fprintf(&sb, "  { fn := %s, cls := %s, mode := .%s, rel := .%s, relMatches := %s, gap := %d, guarded := %s, inLoop := %s, explicitRels := %d, returnsBeforeRel := %d, file := %s, line := %d }%s\n",
+		fmt.Fprintf(&sb, "  { fn := %s, cls := %s, mode := .%s, rel := .%s, relMatches := %s, gap := %d, guarded := %s, inLoop := %s, explicitRels := %d, returnsBeforeRel := %d, cond := %s, file := %s, line := %d }%s\n",
 			leanStr(s.fn), leanStr(s.cls), s.mode, s.rel, leanBool(s.relMatches), s.gap, leanBool(s.guarded), leanBool(s.inLoop),
-			s.explicitRels, s.returnsBeforeRel, leanStr(s.file), s.line, sep)
+			s.explicitRels, s.returnsBeforeRel, leanStr(s.cond), leanStr(s.file), s.line, sep)
 	}
 	sb.WriteString("]\n\n")
 	sb.WriteString("/-- functions from which a lock acquisition is reachable; `Ev.call`/`Ev.spawn` refer to positions in this list.\n")
@@ -795,6 +858,14 @@ func genLocks(repo string) (string, error) {
 		}), ", "))
 	sb.WriteString("end Yorkie.Generated.Locks\n")
 	return sb.String(), nil
+}
+
+func mapExpr(l []ast.Expr, f func(ast.Expr) string) []string {
+	r := make([]string, len(l))
+	for i, e := range l {
+		r[i] = f(e)
+	}
+	return r
 }
 
 func mapStr(l []string, f func(string) string) []string {
